@@ -17,10 +17,33 @@
       decimals and is the exact product price × quantity rounded once;
     * every presented total has exactly the currency's decimals and is the
       half-away rounding of the working-precision value.
+    * against the rational no-rounding pipeline `Spec.C01.exactQ` (helper lemmas
+      in Proofs/CalcErrorMore.lean), for the document class `DocC` (precise rule,
+      prices not including tax, lines in the document currency without breakdown,
+      line and document discounts and charges that are percentages (≤ 100 %) of the
+      sum or of an explicit base or fixed amounts (≤ currency + 2 decimals), tax
+      combos with or without surcharge, retained categories,
+      percentage or fixed advances): `calc_eq_spec` — every presented total is the
+      half-away rounding at currency precision of a working value whose distance
+      from `exactQ d` is at most (number of contributing rounding points) × half a
+      unit of the working precision — and `precise_error_lt_unit` (weight < 100 ⇒
+      every presented total less than one minor unit from the exact value); the
+      intermediate statements `adj_line_error`, `presented_sum_adj_within_one_unit`,
+      `presented_total_adj_within_one_unit`, `presented_tax_within_one_unit`,
+      `presented_payment_within_one_unit` need only the part of the class they use.
   Not proved (exercised by the correspondence and the error-bound oracle only):
-    `calc_eq_spec` as a single closed formula for whole documents, and
-    `precise_error_lt_unit` (the bound against arithmetic with no rounding at all).
+    the same bound outside `DocC`: lines with a breakdown, foreign-currency items and
+    rate × quantity charges (for these it is false: the three known findings), bases,
+    fixed amounts and roundings finer than currency + 2 decimals, included taxes
+    (`prices_include`), the `currency` rule.  Of the presented rows only the line
+    totals, the document discount / charge rows, the advances and the due dates are
+    covered (`calc_lines_spec`, `calc_adj_rows_spec`, `calc_payment_rows_spec`), not
+    the line sums, the line discount / charge rows and the rows of the tax summary.
+  The class is decidable: `Spec.C01.inDocC` (sound by `inDocC_sound`), evaluated by
+  the driver; the harness holds the real output of every in-class document to
+  `decided_class_bound`.
 -/
+import GoblVerif.Proofs.CalcErrorMore
 import GoblVerif.Spec.C01
 import GoblVerif.Generated.CalcFacts
 import GoblVerif.Proofs.CalcError
@@ -29,7 +52,7 @@ import GoblVerif.Proofs.CalcCurrency
 import GoblVerif.Proofs.BillCalcSrc
 
 namespace GoblVerif.Props.C01
-open GoblVerif GoblVerif.Calc GoblVerif.Spec GoblVerif.Spec.C01
+open GoblVerif GoblVerif.Calc GoblVerif.Calc.Err GoblVerif.Spec GoblVerif.Spec.C01
 
 /-! ## the rounding points -/
 
@@ -429,6 +452,575 @@ example : (calcLine exactOps "EUR" 2 [] .precise
     { qty := ⟨3, 0⟩, item := some { price := some ⟨10005, 3⟩, cur := "", sub := 2, alts := [] },
       discounts := [], charges := [], breakdown := [], taxes := [] }).toOption.map (·.sum) = some (some ⟨300150, 4⟩) := by
   decide
+
+/-! ## error bounds against `Spec.C01.exactQ` for lines with discounts and charges
+
+`exactQ d` is the rational pipeline with no rounding anywhere (Spec/C01.lean).  Weights count the
+rounding points in half-units of the working precision (currency + 2 decimals):
+`lineW l = 1 + 2·(#discounts + #charges)`, `sumW = Σ lineW`,
+`totalW d = sumW·(1 + kd + kc) + kd + kc` (kd, kc document discounts / charges). -/
+
+/-- (1) a line of the class `AdjLine` (priced in the document currency, no breakdown; each
+line discount / charge is a non-zero percentage of at most 100 % of the line sum or of an explicit
+base with at most currency + 2 decimals, or a fixed amount with at most currency + 2 decimals; no
+rate × quantity charges): the line total is within
+`lineW l` half-units of the working precision of the exact rational line total -/
+theorem adj_line_error (cur : String) (c : ℕ) (rates : List XRate) (l l' : Line) (hs : AdjLine c l)
+    (h : calcLine exactOps cur c rates .precise l = .ok l') :
+    ∃ t q, l'.total = some t ∧ c + 2 ≤ t.exp ∧ lineTotalQ cur rates l = some q ∧
+      |t.toRat - q| ≤ (lineW l : ℚ) * halfUlp (c + 2) := by
+  obtain ⟨t, q, h1, _, h3, h4, h5⟩ := adjLine_total cur c rates l l' hs h
+  exact ⟨t, q, h1, h3, h4, h5⟩
+
+/-- (1) lifted to the document sum: under the precise rule, with every line of the class `AdjLine`
+and `sumW d.lines < 100`, the presented sum is less than one minor unit from the exact sum -/
+theorem presented_sum_adj_within_one_unit (d : Doc) (out : Out) (t : Totals) (hrule : d.rule = .precise)
+    (hs : ∀ l ∈ d.lines, AdjLine d.c l) (hn : sumW d.lines < 100)
+    (hcalc : calculate exactOps d = .ok out) (ht : out.totals = some t) :
+    |t.sum.toRat - (exactQ d).sum| < 1 / ((pow10 d.c : ℤ) : ℚ) := by
+  obtain ⟨p, tx, hpre, _, _, htr⟩ := calculate_unpack d out t hcalc ht
+  have hts : t.sum = p.sum.rescaleX d.c := by rw [htr]; rfl
+  rw [hts]
+  refine within_unit d.c p.sum _ (sumW d.lines : ℚ) ?_ (pre_sum_spec d p hrule hs hpre)
+  exact_mod_cast Nat.le_of_lt_succ hn
+
+/-- (1) lifted to the presented total: class `DocA` (precise rule, at least one line, lines of the
+class `AdjLine`, document discounts and charges of the class `DocAdjOk`: percentages of at most
+100 % of the sum or of an explicit base, or fixed amounts, bases and fixed amounts with at most
+currency + 2 decimals), no included tax, `totalW d < 100`: the presented total is less than one minor unit from the exact
+total -/
+theorem presented_total_adj_within_one_unit (d : Doc) (out : Out) (t : Totals) (hd : DocA d)
+    (hinc : d.includes = none) (hn : totalW d < 100)
+    (hcalc : calculate exactOps d = .ok out) (ht : out.totals = some t) :
+    |t.total.toRat - (exactQ d).total| < 1 / ((pow10 d.c : ℤ) : ℚ) := by
+  obtain ⟨p, tx, hpre, _, _, htr⟩ := calculate_unpack d out t hcalc ht
+  have hts : t.total = p.total2.rescaleX d.c := by
+    rw [htr]; simp [roundTotals, rawTotals, taxIncluded, hinc]
+  obtain ⟨_, _, _, _, _, _, _, _, hb⟩ := pre_spec d p hd hpre
+  rw [hts, exactQ_total, exactQ_inc_none d hinc, sub_zero]
+  refine within_unit d.c p.total2 _ (totalW d : ℚ) ?_ hb
+  exact_mod_cast Nat.le_of_lt_succ hn
+
+/-- one line 3 × 10.005 with a 12.5 % discount and a charge of 5 % of an explicit base of 20.00,
+one line 1.2 × 2.222 with a fixed charge of 1.25 (10.5 % VAT and a retained tax of 15 %); a fixed document discount of 0.50 (carrying 21 %
+VAT) and a 2 % document charge -/
+def adjDoc : Doc :=
+  { cur := "EUR", c := 2, rule := .precise, includes := none,
+    lines := [{ qty := ⟨3, 0⟩, item := some { price := some ⟨10005, 3⟩, cur := "", sub := 2, alts := [] },
+                discounts := [{ percent := some ⟨⟨125, 3⟩⟩, base := none, amount := ⟨0, 0⟩, rate := none, quantity := none }],
+                charges := [{ percent := some ⟨⟨5, 2⟩⟩, base := some ⟨2000, 2⟩, amount := ⟨0, 0⟩, rate := none, quantity := none }],
+                breakdown := [],
+                taxes := [{ cat := "VAT", country := "", key := "standard", percent := some ⟨⟨21, 2⟩⟩,
+                            surcharge := none, ext := "", retained := false }] },
+              { qty := ⟨12, 1⟩, item := some { price := some ⟨2222, 3⟩, cur := "", sub := 2, alts := [] },
+                discounts := [],
+                charges := [{ percent := none, base := none, amount := ⟨125, 2⟩, rate := none, quantity := none }],
+                breakdown := [],
+                taxes := [{ cat := "VAT", country := "", key := "reduced", percent := some ⟨⟨105, 3⟩⟩,
+                            surcharge := none, ext := "", retained := false },
+                          { cat := "IRPF", country := "", key := "pro", percent := some ⟨⟨15, 2⟩⟩,
+                            surcharge := none, ext := "", retained := true }] }],
+    discounts := [{ percent := none, base := none, amount := ⟨50, 2⟩,
+                    taxes := [{ cat := "VAT", country := "", key := "standard", percent := some ⟨⟨21, 2⟩⟩,
+                                surcharge := none, ext := "", retained := false }] }],
+    charges := [{ percent := some ⟨⟨2, 2⟩⟩, base := none, amount := ⟨0, 0⟩, taxes := [] }],
+    rates := [], rounding := none, hasPayment := false, advances := [], dues := [] }
+
+theorem adjDoc_lines : ∀ l ∈ adjDoc.lines, AdjLine adjDoc.c l := by
+  intro l hl
+  simp only [adjDoc, List.mem_cons, List.mem_nil_iff, or_false] at hl
+  rcases hl with rfl | rfl
+  · refine ⟨_, _, rfl, rfl, rfl, rfl, ?_, ?_⟩
+    · intro x hx
+      simp only [List.mem_cons, List.mem_nil_iff, or_false] at hx
+      subst hx
+      exact ⟨rfl, Or.inl ⟨_, rfl, rfl, by norm_num [Amount.toRat, pow10], Or.inl rfl⟩⟩
+    · intro x hx
+      simp only [List.mem_cons, List.mem_nil_iff, or_false] at hx
+      subst hx
+      exact ⟨rfl, Or.inl ⟨_, rfl, rfl, by norm_num [Amount.toRat, pow10], Or.inr ⟨_, rfl, by decide⟩⟩⟩
+  · refine ⟨_, _, rfl, rfl, rfl, rfl, ?_, ?_⟩
+    · intro x hx; simp at hx
+    · intro x hx
+      simp only [List.mem_cons, List.mem_nil_iff, or_false] at hx
+      subst hx
+      exact ⟨rfl, Or.inr ⟨Or.inl rfl, by decide⟩⟩
+
+theorem adjDoc_class : DocA adjDoc := by
+  refine ⟨rfl, by decide, adjDoc_lines, ?_, ?_⟩
+  · intro x hx
+    simp only [adjDoc, List.mem_singleton] at hx
+    subst hx
+    exact Or.inr ⟨Or.inl rfl, by decide⟩
+  · intro x hx
+    simp only [adjDoc, List.mem_singleton] at hx
+    subst hx
+    exact Or.inl ⟨⟨⟨2, 2⟩⟩, rfl, rfl, by norm_num [Amount.toRat, pow10], Or.inl rfl⟩
+
+/-- non-vacuity of (1): the class holds, weights 5 + 3 = 8 and 8·3 + 2 = 26; exact line totals
+27.263125 and 3.9164, exact sum 31.179525 (presented 31.18), exact total 31.179525 − 0.50 + 0.6235905 =
+31.3031155 (presented 31.30) -/
+example : DocA adjDoc ∧ adjDoc.includes = none ∧ sumW adjDoc.lines = 8 ∧ totalW adjDoc = 26 ∧
+    ((calculate exactOps adjDoc).toOption.bind (·.totals)).map (fun t => (t.sum, t.total)) =
+      some (⟨3118, 2⟩, ⟨3130, 2⟩) :=
+  ⟨adjDoc_class, rfl, by decide, by decide, by decide⟩
+
+/-! ## the tax clause (precise rule, prices not including tax)
+
+`taxW d G = G + Σ_lines lineW l·comboW l + Σ_{document discounts, charges} (1 + sumW)·comboW`:
+one rounding per rate group and one more per group surcharge (`G = groupsT t`, counted on the
+presented tax summary; without surcharges the number of rate groups) plus the error the row totals
+carry into the tax (`comboW` = number of combos, a combo with a surcharge counting twice; every
+percentage and surcharge ≤ 100 %). -/
+
+/-- (2) class `DocT` (class `DocA`; no included tax; every tax combo on a line or on a document
+discount / charge is exempt or a percentage of magnitude ≤ 100 %, with or without a surcharge ≤ 100 %,
+and whether it is retained is a function `ret` of its category alone):
+with `G` rounding points in the tax summary, if `taxW d G < 100` the presented tax, and if
+`totalW d + taxW d G < 100` the presented total with tax, are less than one minor unit from the exact
+rational values of `Spec.C01.exactQ` -/
+theorem presented_tax_within_one_unit (ret : String → Bool) (d : Doc) (out : Out) (t : Totals) (hd : DocT ret d)
+    (hcalc : calculate exactOps d = .ok out) (ht : out.totals = some t) :
+    (taxW d (groupsT t) < 100 → |t.tax.toRat - (exactQ d).tax| < 1 / ((pow10 d.c : ℤ) : ℚ)) ∧
+    (twtW d (groupsT t) < 100 →
+      |t.totalWithTax.toRat - (exactQ d).totalWithTax| < 1 / ((pow10 d.c : ℤ) : ℚ)) := by
+  obtain ⟨p, tx, hpre, htx, _, htr⟩ := calculate_unpack d out t hcalc ht
+  obtain ⟨_, _, _, _, _, w5, w6⟩ := working_tax d p tx hd hpre htx
+  have hG : groupsT t = groupsOf tx.cats := by rw [htr]; exact groupsT_round d p tx
+  have h1 : t.tax = (rawTotals exactOps d p tx).tax.rescaleX d.c := by rw [htr]; rfl
+  have h2 : t.totalWithTax = (rawTotals exactOps d p tx).totalWithTax.rescaleX d.c := by rw [htr]; rfl
+  rw [hG, h1, h2]
+  exact ⟨fun hn => within_unit d.c _ _ _ (by exact_mod_cast Nat.le_of_lt_succ hn) w5,
+    fun hn => within_unit d.c _ _ _ (by exact_mod_cast Nat.le_of_lt_succ hn) w6⟩
+
+/-- which categories are retained in the examples -/
+def retEx : String → Bool := fun k => k == "IRPF"
+
+theorem adjDoc_tax_class : DocT retEx adjDoc := by
+  have hcb : ∀ (cat k : String) (v : ℤ) (e : ℕ) (r : Bool), r = retEx cat → |(⟨v, e⟩ : Amount).toRat| ≤ 1 →
+      ComboOk retEx { cat := cat, country := "", key := k, percent := some ⟨⟨v, e⟩⟩, surcharge := none, ext := "", retained := r } := by
+    intro cat k v e r hr h
+    refine ⟨hr, ?_, fun sp hs => by cases hs⟩
+    intro p hp
+    simp only [Option.some.injEq] at hp
+    subst hp
+    exact h
+  refine ⟨adjDoc_class, rfl, ?_, ?_, ?_⟩
+  · intro l hl cb hcbm
+    simp only [adjDoc, List.mem_cons, List.mem_nil_iff, or_false] at hl
+    rcases hl with rfl | rfl
+    · simp only [List.mem_singleton] at hcbm
+      subst hcbm
+      exact hcb _ _ _ _ _ (by decide) (by norm_num [Amount.toRat, pow10])
+    · simp only [List.mem_cons, List.mem_nil_iff, or_false] at hcbm
+      rcases hcbm with rfl | rfl
+      · exact hcb _ _ _ _ _ (by decide) (by norm_num [Amount.toRat, pow10])
+      · exact hcb _ _ _ _ _ (by decide) (by norm_num [Amount.toRat, pow10])
+  · intro x hx cb hcbm
+    simp only [adjDoc, List.mem_singleton] at hx
+    subst hx
+    simp only [List.mem_singleton] at hcbm
+    subst hcbm
+    exact hcb _ _ _ _ _ (by decide) (by norm_num [Amount.toRat, pow10])
+  · intro x hx cb hcbm
+    simp only [adjDoc, List.mem_singleton] at hx
+    subst hx
+    simp at hcbm
+
+/-- non-vacuity of (2): three rate groups (VAT 21 % and 10.5 %, retained 15 %),
+`taxW = 3 + (5·1 + 3·2) + (1 + 8)·1 = 23`, `twtW = 26 + 23 = 49`; exact tax
+(27.263125 − 0.50) × 0.21 + 3.9164 × (0.105 − 0.15) = 5.44401825 (presented 5.44), exact total with tax
+31.3031155 + 5.44401825 = 36.74713375 (presented 36.75) -/
+example : DocT retEx adjDoc ∧
+    ((calculate exactOps adjDoc).toOption.bind (·.totals)).map
+      (fun t => (groupsT t, taxW adjDoc (groupsT t), twtW adjDoc (groupsT t), t.tax, t.totalWithTax)) =
+      some (3, 23, 49, ⟨544, 2⟩, ⟨3675, 2⟩) :=
+  ⟨adjDoc_tax_class, by decide⟩
+
+/-- one line 7 × 3.333 carrying 21 % VAT with an equivalence surcharge of 5.2 % -/
+def surDoc : Doc :=
+  { cur := "EUR", c := 2, rule := .precise, includes := none,
+    lines := [{ qty := ⟨7, 0⟩, item := some { price := some ⟨3333, 3⟩, cur := "", sub := 2, alts := [] },
+                discounts := [], charges := [], breakdown := [],
+                taxes := [{ cat := "VAT", country := "", key := "standard", percent := some ⟨⟨21, 2⟩⟩,
+                            surcharge := some ⟨⟨52, 3⟩⟩, ext := "", retained := false }] }],
+    discounts := [], charges := [], rates := [], rounding := none, hasPayment := false, advances := [], dues := [] }
+
+/-- non-vacuity of (2) with a surcharge: one rate group with a surcharge (two rounding points),
+`taxW = 2 + 1·2 = 4`; exact tax 23.331 × (0.21 + 0.052) = 6.112722 (presented 6.11), exact total with
+tax 29.443722 (presented 29.44) -/
+example : DocT retEx surDoc ∧
+    ((calculate exactOps surDoc).toOption.bind (·.totals)).map
+      (fun t => (groupsT t, taxW surDoc (groupsT t), twtW surDoc (groupsT t), t.tax, t.totalWithTax)) =
+      some (2, 4, 5, ⟨611, 2⟩, ⟨2944, 2⟩) := by
+  refine ⟨⟨⟨rfl, by decide, ?_, by simp [surDoc], by simp [surDoc]⟩, rfl, ?_, by simp [surDoc], by simp [surDoc]⟩, by decide⟩
+  · intro l hl
+    simp only [surDoc, List.mem_singleton] at hl
+    subst hl
+    exact ⟨_, _, rfl, rfl, rfl, rfl, by simp, by simp⟩
+  · intro l hl cb hcb
+    simp only [surDoc, List.mem_singleton] at hl
+    subst hl
+    simp only [List.mem_singleton] at hcb
+    subst hcb
+    refine ⟨by decide, ?_, ?_⟩
+    · intro p hp
+      simp only [Option.some.injEq] at hp
+      subst hp
+      norm_num [Amount.toRat, pow10]
+    · intro sp hs
+      simp only [Option.some.injEq] at hs
+      subst hs
+      norm_num [Amount.toRat, pow10]
+
+/-! ## payable, advances, due
+
+`twtW d G = totalW d + taxW d G` (total with tax, payable), `advW d G = #advances·(1 + twtW d G)`,
+`dueW d G = twtW d G + advW d G`. -/
+
+/-- (3) class `DocC` (class `DocT`; an externally supplied `totals.rounding` with at most
+currency + 2 decimals; every advance a percentage ≤ 100 % of the total with tax or a fixed amount with
+at most currency + 2 decimals): the presented payable, advances total and amount due are less than
+one minor unit from the exact rational values whenever their weight is below 100 -/
+theorem presented_payment_within_one_unit (ret : String → Bool) (d : Doc) (out : Out) (t : Totals) (hd : DocC ret d)
+    (hcalc : calculate exactOps d = .ok out) (ht : out.totals = some t) :
+    (twtW d (groupsT t) < 100 → |t.payable.toRat - (exactQ d).payable| < 1 / ((pow10 d.c : ℤ) : ℚ)) ∧
+    (advW d (groupsT t) < 100 → ∀ x, t.advances = some x →
+      |x.toRat - (exactQ d).advances| < 1 / ((pow10 d.c : ℤ) : ℚ)) ∧
+    (dueW d (groupsT t) < 100 → ∀ x, t.due = some x →
+      |x.toRat - (exactQ d).due| < 1 / ((pow10 d.c : ℤ) : ℚ)) := by
+  obtain ⟨p, tx, hpre, htx, _, htr⟩ := calculate_unpack d out t hcalc ht
+  obtain ⟨_, _, _, _, _, _, w7, w8, w9⟩ := working_spec d p tx hd hpre htx
+  have hG : groupsT t = groupsOf tx.cats := by rw [htr]; exact groupsT_round d p tx
+  have h1 : t.payable = (rawTotals exactOps d p tx).payable.rescaleX d.c := by rw [htr]; rfl
+  have h2 : t.advances = (rawTotals exactOps d p tx).advances.map (·.rescaleX d.c) := by rw [htr]; rfl
+  have h3 : t.due = (rawTotals exactOps d p tx).due.map (·.rescaleX d.c) := by rw [htr]; rfl
+  rw [hG, h1, h2, h3]
+  refine ⟨fun hn => within_unit d.c _ _ _ (by exact_mod_cast Nat.le_of_lt_succ hn) w7, ?_, ?_⟩
+  · intro hn x hx
+    simp only [Option.map_eq_some_iff] at hx
+    obtain ⟨y, hy, rfl⟩ := hx
+    rw [hy] at w8
+    exact within_unit d.c _ _ _ (by exact_mod_cast Nat.le_of_lt_succ hn) w8
+  · intro hn x hx
+    simp only [Option.map_eq_some_iff] at hx
+    obtain ⟨y, hy, rfl⟩ := hx
+    exact within_unit d.c _ _ _ (by exact_mod_cast Nat.le_of_lt_succ hn) (w9 y hy)
+
+/-- `adjDoc` with a payment section: an advance of 30 % and an externally supplied rounding of −0.02 -/
+def payDoc : Doc :=
+  { adjDoc with hasPayment := true, rounding := some ⟨-2, 2⟩,
+                advances := [{ percent := some ⟨⟨30, 2⟩⟩, amount := ⟨0, 0⟩ }] }
+
+theorem payDoc_class : DocC retEx payDoc := by
+  refine ⟨⟨⟨adjDoc_class.rule, adjDoc_class.ne, adjDoc_class.lines, adjDoc_class.discounts, adjDoc_class.charges⟩,
+    rfl, adjDoc_tax_class.lineTaxes, adjDoc_tax_class.discTaxes, adjDoc_tax_class.chTaxes⟩, ?_, ?_⟩
+  · intro x hx
+    simp only [payDoc, Option.some.injEq] at hx
+    subst hx
+    decide
+  · intro a ha
+    simp only [payDoc, List.mem_singleton] at ha
+    subst ha
+    exact Or.inl ⟨_, rfl, by norm_num [Amount.toRat, pow10]⟩
+
+/-- non-vacuity of (3): weights 49, 50 and 99; exact payable 36.74713375 − 0.02 = 36.72713375
+(presented 36.73), exact advance 30 % × 36.74713375 = 11.024140125 (presented 11.02), exact due
+25.702993625 (presented 25.70) -/
+example : DocC retEx payDoc ∧
+    ((calculate exactOps payDoc).toOption.bind (·.totals)).map
+      (fun t => (twtW payDoc (groupsT t), advW payDoc (groupsT t), dueW payDoc (groupsT t))) = some (49, 50, 99) ∧
+    ((calculate exactOps payDoc).toOption.bind (·.totals)).map (fun t => (t.payable, t.advances, t.due)) =
+      some (⟨3673, 2⟩, some ⟨1102, 2⟩, some ⟨2570, 2⟩) :=
+  ⟨payDoc_class, by decide, by decide⟩
+
+/-! ## the first clause as one theorem -/
+
+/-- **calc_eq_spec** — for every document of the class `DocC` (precise rule; prices not including
+tax; at least one line; lines priced in the document currency without breakdown whose discounts and
+charges are percentages ≤ 100 % of the line sum or of an explicit base, or fixed amounts (bases and
+fixed amounts with ≤ currency + 2 decimals);
+document discounts and charges percentages ≤ 100 % of the sum or of an explicit base, or fixed
+amounts (bases and fixed amounts with ≤ currency + 2 decimals); ordinary tax combos; `totals.rounding`
+and fixed advances with ≤ currency + 2 decimals, percentage advances ≤ 100 %):
+
+every presented figure of `Calc.calculate exactOps d` is the half-away rounding at the currency's
+precision of a working value (the fields of `w`; `w` itself is never rounded again: `t = roundTotals w`),
+and the working value differs from `Spec.C01.exactQ d` by at most the number of contributing rounding
+points, each worth half a unit of the working precision (currency + 2 decimals).  The rounding points
+are named by the weights: price × quantity of each line and each percentage line discount / charge
+(`lineW`, `sumW`), each document discount / charge (`adjW`, `totalW`), each rate group of the tax
+summary (`G = groupsT t`, `taxW`), each percentage advance (`advW`); sums, differences, the precise
+rule's `RescaleUp`, fixed amounts and the externally supplied rounding contribute nothing. -/
+theorem calc_eq_spec (ret : String → Bool) (d : Doc) (out : Out) (t : Totals) (hd : DocC ret d)
+    (hcalc : calculate exactOps d = .ok out) (ht : out.totals = some t) :
+    ∃ w : Totals, t = roundTotals exactOps d.c w ∧
+      -- presentation: one rounding, half away from zero, at the currency's precision
+      (presents d.c t.sum w.sum.toRat ∧ presents d.c t.total w.total.toRat ∧
+       presents d.c t.tax w.tax.toRat ∧ presents d.c t.totalWithTax w.totalWithTax.toRat ∧
+       presents d.c t.payable w.payable.toRat ∧ t.taxIncluded = none ∧
+       (∀ x, t.discount = some x → ∃ y, w.discount = some y ∧ presents d.c x y.toRat) ∧
+       (∀ x, t.charge = some x → ∃ y, w.charge = some y ∧ presents d.c x y.toRat) ∧
+       (∀ x, t.advances = some x → ∃ y, w.advances = some y ∧ presents d.c x y.toRat) ∧
+       (∀ x, t.due = some x → ∃ y, w.due = some y ∧ presents d.c x y.toRat)) ∧
+      -- distance of the working values from the exact rational pipeline
+      (|w.sum.toRat - (exactQ d).sum| ≤ (sumW d.lines : ℚ) * halfUlp (d.c + 2) ∧
+       |optQ w.discount - (exactQ d).discount| ≤ (adjW (sumW d.lines) d.discounts.length : ℚ) * halfUlp (d.c + 2) ∧
+       |optQ w.charge - (exactQ d).charge| ≤ (adjW (sumW d.lines) d.charges.length : ℚ) * halfUlp (d.c + 2) ∧
+       |w.total.toRat - (exactQ d).total| ≤ (totalW d : ℚ) * halfUlp (d.c + 2) ∧
+       |w.tax.toRat - (exactQ d).tax| ≤ (taxW d (groupsT t) : ℚ) * halfUlp (d.c + 2) ∧
+       |w.totalWithTax.toRat - (exactQ d).totalWithTax| ≤ (twtW d (groupsT t) : ℚ) * halfUlp (d.c + 2) ∧
+       |w.payable.toRat - (exactQ d).payable| ≤ (twtW d (groupsT t) : ℚ) * halfUlp (d.c + 2) ∧
+       |optQ w.advances - (exactQ d).advances| ≤ (advW d (groupsT t) : ℚ) * halfUlp (d.c + 2) ∧
+       (∀ y, w.due = some y → |y.toRat - (exactQ d).due| ≤ (dueW d (groupsT t) : ℚ) * halfUlp (d.c + 2))) := by
+  obtain ⟨p, tx, hpre, htx, _, htr⟩ := calculate_unpack d out t hcalc ht
+  have hG : groupsT t = groupsOf tx.cats := by rw [htr]; exact groupsT_round d p tx
+  have hw := working_spec d p tx hd hpre htx
+  have hti : (rawTotals exactOps d p tx).taxIncluded = none := (rawTotals_fields d p tx hd.tax.inc).2.2.2.1
+  have hopt : ∀ (o : Option Amount) (x : Amount), o.map (exactOps.rescale · d.c) = some x →
+      ∃ y, o = some y ∧ presents d.c x y.toRat := by
+    intro o x hx
+    simp only [Option.map_eq_some_iff] at hx
+    obtain ⟨y, hy, rfl⟩ := hx
+    exact ⟨y, hy, presents_rescale d.c y⟩
+  refine ⟨rawTotals exactOps d p tx, htr, ?_, ?_⟩
+  · rw [htr]
+    refine ⟨presents_rescale _ _, presents_rescale _ _, presents_rescale _ _, presents_rescale _ _,
+      presents_rescale _ _, ?_, hopt _, hopt _, hopt _, hopt _⟩
+    simp [roundTotals, hti]
+  · rw [hG]; exact hw
+
+/-- **precise_error_lt_unit** — for a document of the class `DocC` whose largest weight
+`dueW d G` (G rate groups) is below 100, every presented total is less than one minor currency unit
+from the exact rational value -/
+theorem precise_error_lt_unit (ret : String → Bool) (d : Doc) (out : Out) (t : Totals) (hd : DocC ret d)
+    (hn : dueW d (groupsT t) < 100)
+    (hcalc : calculate exactOps d = .ok out) (ht : out.totals = some t) :
+    |t.sum.toRat - (exactQ d).sum| < 1 / ((pow10 d.c : ℤ) : ℚ) ∧
+    |t.total.toRat - (exactQ d).total| < 1 / ((pow10 d.c : ℤ) : ℚ) ∧
+    |t.tax.toRat - (exactQ d).tax| < 1 / ((pow10 d.c : ℤ) : ℚ) ∧
+    |t.totalWithTax.toRat - (exactQ d).totalWithTax| < 1 / ((pow10 d.c : ℤ) : ℚ) ∧
+    |t.payable.toRat - (exactQ d).payable| < 1 / ((pow10 d.c : ℤ) : ℚ) ∧
+    (∀ x, t.discount = some x → |x.toRat - (exactQ d).discount| < 1 / ((pow10 d.c : ℤ) : ℚ)) ∧
+    (∀ x, t.charge = some x → |x.toRat - (exactQ d).charge| < 1 / ((pow10 d.c : ℤ) : ℚ)) ∧
+    (∀ x, t.advances = some x → |x.toRat - (exactQ d).advances| < 1 / ((pow10 d.c : ℤ) : ℚ)) ∧
+    (∀ x, t.due = some x → |x.toRat - (exactQ d).due| < 1 / ((pow10 d.c : ℤ) : ℚ)) := by
+  obtain ⟨w, htr, _, b1, b2, b3, b4, b5, b6, b7, b8, b9⟩ := calc_eq_spec ret d out t hd hcalc ht
+  set G := groupsT t
+  -- every weight is at most the weight of the amount due
+  have m1 : twtW d G ≤ dueW d G := Nat.le_add_right _ _
+  have m2 : advW d G ≤ dueW d G := Nat.le_add_left _ _
+  have m3 : totalW d ≤ twtW d G := Nat.le_add_right _ _
+  have m4 : taxW d G ≤ twtW d G := Nat.le_add_left _ _
+  have m5 : sumW d.lines ≤ totalW d := by
+    unfold totalW
+    have : sumW d.lines ≤ sumW d.lines * (1 + d.discounts.length + d.charges.length) :=
+      Nat.le_mul_of_pos_right _ (by omega)
+    omega
+  have m6 : adjW (sumW d.lines) d.discounts.length ≤ totalW d := by
+    unfold totalW adjW
+    have : sumW d.lines * (1 + d.discounts.length + d.charges.length) =
+        sumW d.lines + d.discounts.length * sumW d.lines + sumW d.lines * d.charges.length := by ring
+    rw [this, Nat.mul_add, Nat.mul_one]
+    omega
+  have m7 : adjW (sumW d.lines) d.charges.length ≤ totalW d := by
+    unfold totalW adjW
+    have : sumW d.lines * (1 + d.discounts.length + d.charges.length) =
+        sumW d.lines + sumW d.lines * d.discounts.length + d.charges.length * sumW d.lines := by ring
+    rw [this, Nat.mul_add, Nat.mul_one]
+    omega
+  have c99 : ∀ n : ℕ, n ≤ dueW d G → ((n : ℕ) : ℚ) ≤ 99 := by
+    intro n hle
+    have : n ≤ 99 := by omega
+    exact_mod_cast this
+  have hs : ∀ (a : Amount) (q : ℚ) (n : ℕ), n ≤ dueW d G → |a.toRat - q| ≤ (n : ℚ) * halfUlp (d.c + 2) →
+      |(a.rescaleX d.c).toRat - q| < 1 / ((pow10 d.c : ℤ) : ℚ) :=
+    fun a q n hle h => within_unit d.c a q n (c99 n hle) h
+  have ho : ∀ (o : Option Amount) (q : ℚ) (n : ℕ), n ≤ dueW d G → |optQ o - q| ≤ (n : ℚ) * halfUlp (d.c + 2) →
+      ∀ x, o.map (exactOps.rescale · d.c) = some x → |x.toRat - q| < 1 / ((pow10 d.c : ℤ) : ℚ) := by
+    intro o q n hle h x hx
+    simp only [Option.map_eq_some_iff] at hx
+    obtain ⟨y, hy, rfl⟩ := hx
+    rw [hy] at h
+    exact hs y q n hle h
+  rw [htr]
+  refine ⟨hs _ _ _ (by omega) b1, hs _ _ _ (by omega) b4, hs _ _ _ (by omega) b5, hs _ _ _ (by omega) b6,
+    hs _ _ _ (by omega) b7, ho _ _ _ (by omega) b2, ho _ _ _ (by omega) b3, ho _ _ _ (by omega) b8, ?_⟩
+  intro x hx
+  have hx' : w.due.map (exactOps.rescale · d.c) = some x := hx
+  simp only [Option.map_eq_some_iff] at hx'
+  obtain ⟨y, hy, rfl⟩ := hx'
+  exact hs y _ _ (Nat.le_refl _) (b9 y hy)
+
+/-- non-vacuity of `calc_eq_spec` / `precise_error_lt_unit`: `payDoc` is of the class and its largest
+weight is 99 < 100; the presented figures against the exact values 31.179525, 0.50, 0.6235905,
+31.3031155, 5.44401825, 36.74713375, 36.72713375, 11.024140125, 25.702993625 -/
+example : DocC retEx payDoc ∧
+    ((calculate exactOps payDoc).toOption.bind (·.totals)).map (fun t => dueW payDoc (groupsT t)) = some 99 ∧
+    ((calculate exactOps payDoc).toOption.bind (·.totals)).map (fun t => (t.sum, t.discount, t.charge, t.total)) =
+      some (⟨3118, 2⟩, some ⟨50, 2⟩, some ⟨62, 2⟩, ⟨3130, 2⟩) ∧
+    ((calculate exactOps payDoc).toOption.bind (·.totals)).map (fun t => (t.tax, t.totalWithTax, t.payable)) =
+      some (⟨544, 2⟩, ⟨3675, 2⟩, ⟨3673, 2⟩) ∧
+    ((calculate exactOps payDoc).toOption.bind (·.totals)).map (fun t => (t.advances, t.due)) =
+      some (some ⟨1102, 2⟩, some ⟨2570, 2⟩) :=
+  ⟨payDoc_class, by decide, by decide, by decide, by decide⟩
+
+/-- **the explicit bound** — for a document of the class `DocC`, every presented total is within
+half a minor unit (the presentation rounding) plus `dueW d G` half-units of the working precision
+(all other rounding points; `dueW d G` is the largest of the weights) of the exact rational value -/
+theorem presented_explicit_bound (ret : String → Bool) (d : Doc) (out : Out) (t : Totals) (hd : DocC ret d)
+    (hcalc : calculate exactOps d = .ok out) (ht : out.totals = some t) :
+    |t.sum.toRat - (exactQ d).sum| ≤ halfUlp d.c + (dueW d (groupsT t) : ℚ) * halfUlp (d.c + 2) ∧
+    |t.total.toRat - (exactQ d).total| ≤ halfUlp d.c + (dueW d (groupsT t) : ℚ) * halfUlp (d.c + 2) ∧
+    |t.tax.toRat - (exactQ d).tax| ≤ halfUlp d.c + (dueW d (groupsT t) : ℚ) * halfUlp (d.c + 2) ∧
+    |t.totalWithTax.toRat - (exactQ d).totalWithTax| ≤ halfUlp d.c + (dueW d (groupsT t) : ℚ) * halfUlp (d.c + 2) ∧
+    |t.payable.toRat - (exactQ d).payable| ≤ halfUlp d.c + (dueW d (groupsT t) : ℚ) * halfUlp (d.c + 2) ∧
+    (∀ x, t.discount = some x →
+      |x.toRat - (exactQ d).discount| ≤ halfUlp d.c + (dueW d (groupsT t) : ℚ) * halfUlp (d.c + 2)) ∧
+    (∀ x, t.charge = some x →
+      |x.toRat - (exactQ d).charge| ≤ halfUlp d.c + (dueW d (groupsT t) : ℚ) * halfUlp (d.c + 2)) ∧
+    (∀ x, t.advances = some x →
+      |x.toRat - (exactQ d).advances| ≤ halfUlp d.c + (dueW d (groupsT t) : ℚ) * halfUlp (d.c + 2)) ∧
+    (∀ x, t.due = some x →
+      |x.toRat - (exactQ d).due| ≤ halfUlp d.c + (dueW d (groupsT t) : ℚ) * halfUlp (d.c + 2)) := by
+  obtain ⟨w, htr, _, b1, b2, b3, b4, b5, b6, b7, b8, b9⟩ := calc_eq_spec ret d out t hd hcalc ht
+  set G := groupsT t
+  have m1 : twtW d G ≤ dueW d G := Nat.le_add_right _ _
+  have m2 : advW d G ≤ dueW d G := Nat.le_add_left _ _
+  have m3 : totalW d ≤ twtW d G := Nat.le_add_right _ _
+  have m4 : taxW d G ≤ twtW d G := Nat.le_add_left _ _
+  have m5 : sumW d.lines ≤ totalW d := by
+    unfold totalW
+    have : sumW d.lines ≤ sumW d.lines * (1 + d.discounts.length + d.charges.length) :=
+      Nat.le_mul_of_pos_right _ (by omega)
+    omega
+  have m6 : adjW (sumW d.lines) d.discounts.length ≤ totalW d := by
+    unfold totalW adjW
+    have : sumW d.lines * (1 + d.discounts.length + d.charges.length) =
+        sumW d.lines + d.discounts.length * sumW d.lines + sumW d.lines * d.charges.length := by ring
+    rw [this, Nat.mul_add, Nat.mul_one]
+    omega
+  have m7 : adjW (sumW d.lines) d.charges.length ≤ totalW d := by
+    unfold totalW adjW
+    have : sumW d.lines * (1 + d.discounts.length + d.charges.length) =
+        sumW d.lines + sumW d.lines * d.discounts.length + d.charges.length * sumW d.lines := by ring
+    rw [this, Nat.mul_add, Nat.mul_one]
+    omega
+  have h0 := halfUlp_nonneg (d.c + 2)
+  have hs : ∀ (a : Amount) (q : ℚ) (n : ℕ), n ≤ dueW d G → |a.toRat - q| ≤ (n : ℚ) * halfUlp (d.c + 2) →
+      |(a.rescaleX d.c).toRat - q| ≤ halfUlp d.c + (dueW d G : ℚ) * halfUlp (d.c + 2) := by
+    intro a q n hle h
+    have h1 := rescaleX_err a d.c
+    have hn : (n : ℚ) ≤ (dueW d G : ℚ) := by exact_mod_cast hle
+    have h2 := mul_le_mul_of_nonneg_right hn h0
+    have e : (a.rescaleX d.c).toRat - q = ((a.rescaleX d.c).toRat - a.toRat) + (a.toRat - q) := by ring
+    rw [e]
+    refine le_trans (abs_add_le _ _) ?_
+    linarith
+  have ho : ∀ (o : Option Amount) (q : ℚ) (n : ℕ), n ≤ dueW d G → |optQ o - q| ≤ (n : ℚ) * halfUlp (d.c + 2) →
+      ∀ x, o.map (exactOps.rescale · d.c) = some x →
+        |x.toRat - q| ≤ halfUlp d.c + (dueW d G : ℚ) * halfUlp (d.c + 2) := by
+    intro o q n hle h x hx
+    simp only [Option.map_eq_some_iff] at hx
+    obtain ⟨y, hy, rfl⟩ := hx
+    rw [hy] at h
+    exact hs y q n hle h
+  rw [htr]
+  refine ⟨hs _ _ _ (by omega) b1, hs _ _ _ (by omega) b4, hs _ _ _ (by omega) b5, hs _ _ _ (by omega) b6,
+    hs _ _ _ (by omega) b7, ho _ _ _ (by omega) b2, ho _ _ _ (by omega) b3, ho _ _ _ (by omega) b8, ?_⟩
+  intro x hx
+  have hx' : w.due.map (exactOps.rescale · d.c) = some x := hx
+  simp only [Option.map_eq_some_iff] at hx'
+  obtain ⟨y, hy, rfl⟩ := hx'
+  exact hs y _ _ (Nat.le_refl _) (b9 y hy)
+
+/-- the same with hypotheses the model driver evaluates (`Spec.C01`: `inDocC`, `docWeight`): this is
+the statement the check also tests on the real library's output for every generated document that
+falls in the class (`harness/props/c01`, counters `error-bound:in-proved-class…`) -/
+theorem decided_class_bound (d : Doc) (out : Out) (t : Totals) (hcls : inDocC d = true)
+    (hcalc : calculate exactOps d = .ok out) (ht : out.totals = some t) :
+    |t.sum.toRat - (exactQ d).sum| ≤ halfUlp d.c + (docWeight d : ℚ) * halfUlp (d.c + 2) ∧
+    |t.total.toRat - (exactQ d).total| ≤ halfUlp d.c + (docWeight d : ℚ) * halfUlp (d.c + 2) ∧
+    |t.tax.toRat - (exactQ d).tax| ≤ halfUlp d.c + (docWeight d : ℚ) * halfUlp (d.c + 2) ∧
+    |t.totalWithTax.toRat - (exactQ d).totalWithTax| ≤ halfUlp d.c + (docWeight d : ℚ) * halfUlp (d.c + 2) ∧
+    |t.payable.toRat - (exactQ d).payable| ≤ halfUlp d.c + (docWeight d : ℚ) * halfUlp (d.c + 2) ∧
+    (∀ x, t.discount = some x →
+      |x.toRat - (exactQ d).discount| ≤ halfUlp d.c + (docWeight d : ℚ) * halfUlp (d.c + 2)) ∧
+    (∀ x, t.charge = some x →
+      |x.toRat - (exactQ d).charge| ≤ halfUlp d.c + (docWeight d : ℚ) * halfUlp (d.c + 2)) ∧
+    (∀ x, t.advances = some x →
+      |x.toRat - (exactQ d).advances| ≤ halfUlp d.c + (docWeight d : ℚ) * halfUlp (d.c + 2)) ∧
+    (∀ x, t.due = some x →
+      |x.toRat - (exactQ d).due| ≤ halfUlp d.c + (docWeight d : ℚ) * halfUlp (d.c + 2)) := by
+  rw [docWeight_eq d out t hcalc ht]
+  exact presented_explicit_bound (retOf d) d out t (inDocC_sound d hcls) hcalc ht
+
+/-- non-vacuity: the examples are in the decided class, with the weights computed above -/
+example : inDocC adjDoc = true ∧ inDocC payDoc = true ∧ inDocC surDoc = true ∧
+    docWeight adjDoc = 49 ∧ docWeight payDoc = 99 ∧ docWeight surDoc = 5 := by decide
+
+/-! ## the presented rows -/
+
+/-- every line of a document of the class `DocA` is shown (`Shows`: unchanged, or rounded half away
+from zero once, to the decimals of the item price) from a working line total that carries at least
+currency + 2 decimals and is within `lineW l` half-units of the working precision of the exact
+rational line total -/
+theorem calc_lines_spec (d : Doc) (out : Out) (hd : DocA d) (hcalc : calculate exactOps d = .ok out) :
+    List.Forall₂ (fun l lo => ∃ w q a, lo.total = some a ∧ Shows a w ∧ d.c + 2 ≤ w.exp ∧
+        lineTotalQ d.cur d.rates l = some q ∧ |w.toRat - q| ≤ (lineW l : ℚ) * halfUlp (d.c + 2))
+      d.lines out.lines :=
+  lines_shown d out hd hcalc
+
+/-- the advance rows and the due-date rows (`DueOk`: a non-zero percentage ≤ 100 % of the payable
+amount, or a fixed amount) of a document of the class `DocC` with a payment section: each amount is
+the half-away rounding at currency precision of a working value (for a percentage: the product at the
+working precision, the second rounding point of that row) within `1 + twtW` half-units of the exact
+percentage of the exact total with tax / payable amount -/
+theorem calc_payment_rows_spec (ret : String → Bool) (d : Doc) (out : Out) (t : Totals) (hd : DocC ret d)
+    (hp : d.hasPayment = true) (hdues : ∀ x ∈ d.dues, DueOk x)
+    (hcalc : calculate exactOps d = .ok out) (ht : out.totals = some t) :
+    List.Forall₂ (fun a ao => ∃ w : Amount, presents d.c ao.amount w.toRat ∧
+        |w.toRat - advQ (exactQ d).totalWithTax a| ≤ (1 + (twtW d (groupsT t) : ℚ)) * halfUlp (d.c + 2))
+      d.advances out.advances ∧
+    List.Forall₂ (fun x xo => ∃ w : Amount, presents d.c xo.amount w.toRat ∧
+        |w.toRat - dueQ (exactQ d).payable x| ≤ (1 + (twtW d (groupsT t) : ℚ)) * halfUlp (d.c + 2))
+      d.dues out.dues :=
+  payment_rows_shown d out t hd hp hdues hcalc ht
+
+/-- the document discount and charge rows of a document of the class `DocA`: each shown amount
+`Shows` (unchanged or rounded once, `Discount.round` / `Charge.round`) a working amount within
+`1 + sumW` half-units of the working precision of its exact value on the exact sum -/
+theorem calc_adj_rows_spec (d : Doc) (out : Out) (t : Totals) (hd : DocA d)
+    (hcalc : calculate exactOps d = .ok out) (ht : out.totals = some t) :
+    List.Forall₂ (fun x xo => ∃ w : Amount, Shows xo.amount w ∧
+        |w.toRat - docAdjQ (exactQ d).sum x| ≤ (1 + (sumW d.lines : ℚ)) * halfUlp (d.c + 2))
+      d.discounts out.discounts ∧
+    List.Forall₂ (fun x xo => ∃ w : Amount, Shows xo.amount w ∧
+        |w.toRat - docAdjQ (exactQ d).sum x| ≤ (1 + (sumW d.lines : ℚ)) * halfUlp (d.c + 2))
+      d.charges out.charges :=
+  adj_rows_shown d out t hd hcalc ht
+
+/-- `payDoc` with two due dates: 40 % of the payable amount and a fixed 10.00 -/
+def dueDoc : Doc :=
+  { payDoc with dues := [{ percent := some ⟨⟨40, 2⟩⟩, amount := ⟨0, 0⟩ }, { percent := none, amount := ⟨1000, 2⟩ }] }
+
+/-- non-vacuity: the classes hold; line totals 27.263125 and 3.9164 shown with the three decimals
+of the prices, the advance 11.024140125 as 11.02, the due dates 40 % × 36.72713375 = 14.6908535 as
+14.69 and 10.00 -/
+example : DocC retEx dueDoc ∧ dueDoc.hasPayment = true ∧ (∀ x ∈ dueDoc.dues, DueOk x) ∧
+    (calculate exactOps dueDoc).toOption.map (fun o => o.lines.map (·.total)) =
+      some [some ⟨27263, 3⟩, some ⟨3916, 3⟩] ∧
+    (calculate exactOps dueDoc).toOption.map (fun o => (o.advances.map (·.amount), o.dues.map (·.amount))) =
+      some ([⟨1102, 2⟩], [⟨1469, 2⟩, ⟨1000, 2⟩]) := by
+  have h := payDoc_class
+  refine ⟨⟨⟨⟨h.tax.base.rule, h.tax.base.ne, h.tax.base.lines, h.tax.base.discounts, h.tax.base.charges⟩,
+    h.tax.inc, h.tax.lineTaxes, h.tax.discTaxes, h.tax.chTaxes⟩, h.rounding, h.advances⟩, rfl, ?_,
+    by decide, by decide⟩
+  intro x hx
+  simp only [dueDoc, List.mem_cons, List.mem_nil_iff, or_false] at hx
+  rcases hx with rfl | rfl
+  · exact Or.inl ⟨_, rfl, rfl, by norm_num [Amount.toRat, pow10]⟩
+  · exact Or.inr (Or.inl rfl)
 
 /-! ## pinned source shapes (regenerated facts; tools/pin_calc_expect.py) -/
 
